@@ -126,6 +126,7 @@ pub fn main(args: &[String]) -> i32 {
         nontrivial: 0,
     };
 
+    let out_path: Option<String> = arg(args, "--out").map(|s| s.to_string());
     let mut run_one = |chooser: &mut dyn Chooser, st: &mut Stats, label: &str| -> Outcome {
         let inst = builder(ctl, &params);
         let Instance { opts, actors, mut custom, check, mut unstick } = inst;
@@ -172,6 +173,19 @@ pub fn main(args: &[String]) -> i32 {
         }
         if st.samples.len() < 3 && switches(&out.schedule) >= 2 {
             st.samples.push(json!({"run": label, "end": format!("{:?}", out.end), "schedule": schedule_json(&out.schedule)}));
+        }
+        if out.end == End::Aborted {
+            // actors are frozen where they are; releasing them would be unsafe: report and leave
+            let res = json!({
+                "scenario": scen_name, "mode": "aborted", "runs": st.runs, "completed": st.completed,
+                "diverged": st.diverged, "first_divergence": st.first_div, "steps": st.steps,
+                "distinct": st.distinct.len(), "distinct_nontrivial": st.nontrivial,
+                "violations": st.violations, "tool_errors": st.tool_errors, "samples": st.samples,
+            });
+            if let Some(p) = out_path.as_deref() {
+                let _ = std::fs::write(p, serde_json::to_string_pretty(&res).unwrap());
+            }
+            std::process::exit(if st.violations.is_empty() { 2 } else { 1 });
         }
         finish(ctl, &out, handles, &mut *unstick);
         if let Some(w) = traces.as_mut() {
